@@ -11,14 +11,16 @@ cut what the writer emitted are `Bad` values - violations - and what the evaluat
 from __future__ import annotations
 
 import ast
+import re
 
 from . import e2_formula as F
 from . import op4_model as M
 from . import c04_sem as S
+from . import c04_fmt as FM
 from .c04_lab import lab, WRITERS, data_base, slice_start
 from .c04_txt import Fld, Lit, Txt, is_bad, is_rat, atom_id, sym_name, strconst, const_int, single_atom
 from .core import AnchorError, Unsupported
-from .e1_srcmodel import dotted
+from .e1_srcmodel import dotted, walk_no_nested
 from .e2_eval import is_unknown
 from .sem import unfn
 
@@ -1389,6 +1391,430 @@ def r9_no_byte_reinterpretation(ctx):
                "into the matrix)", meth.get("_loadop4_binary"))
 
 
+# --------------------------------------------------------------------------------------------------------------------- R10
+INT_CODES = "bBhHiIlLqQ"
+
+
+def _op4_methods(ctx):
+    mod = ctx.src.mod(OP4)
+    meth = {}
+    for c in reversed(S.class_chain(mod, "OP4")):
+        meth.update({q.split(".", 1)[1]: f for q, f in mod.funcs.items() if q.startswith(c + ".") and q.count(".") == 1})
+    return meth
+
+
+def _format_root(meth):
+    """(root, deciders): the methods that store `self._ascii` (outside __init__) and the method that opens the file and reaches one of them"""
+    def stores(fn):
+        return any(isinstance(n, ast.Attribute) and isinstance(n.ctx, ast.Store) and n.attr == "_ascii" and isinstance(n.value, ast.Name) and n.value.id == "self"
+                   for n in ast.walk(fn))
+
+    def callees(fn):
+        return {c.func.attr for c in ast.walk(fn) if isinstance(c, ast.Call) and isinstance(c.func, ast.Attribute) and isinstance(c.func.value, ast.Name)
+                and c.func.value.id in ("self", "OP4") and c.func.attr in meth}
+    deciders = sorted(nm for nm, fn in meth.items() if nm != "__init__" and stores(fn))
+    roots = []
+    for nm, fn in meth.items():
+        if not any(isinstance(c, ast.Call) and dotted(c.func) == "open" for c in ast.walk(fn)):
+            continue
+        seen, work = set(), [nm]
+        while work:
+            x = work.pop()
+            if x in seen:
+                continue
+            seen.add(x)
+            work.extend(callees(meth[x]))
+        if seen & set(deciders):
+            roots.append(nm)
+    return roots, deciders
+
+
+def _render_ascii(run, ev):
+    """[(first bytes of the header line, width of its first field)] for representatives of the fields' values; None: nothing renderable"""
+    axes, parts = [], []
+    total = 0
+    for p in run.header.txt.p:
+        if total >= 32:
+            break
+        if isinstance(p, Lit):
+            parts.append(p.s)
+            total += len(p.s)
+            continue
+        if not isinstance(p, Fld) or p.kind() != "int" or p.width is None or const_int(p.width) is None or not is_rat(p.v):
+            break
+        lo, hi = ev.rng(p.v)
+        if lo is None or hi is None:
+            if sym_name(p.v) == "form":
+                lo, hi = 1, 9          # the matrix form codes of the OUTPUT4 format
+            else:
+                break
+        axes.append(FM.int_reps(int(lo), int(hi), 10))
+        parts.append((p, len(axes) - 1))
+        total += const_int(p.width)
+    if not axes:
+        return None, None
+    first = next((const_int(x[0].width) for x in parts if isinstance(x, tuple)), None)
+    out = []
+    for combo in FM.star(axes):
+        s = ""
+        for x in parts:
+            if isinstance(x, str):
+                s += x
+                continue
+            f, k = x
+            r = Fld(F.const(combo[k]), f.conv, f.width, f.prec, f.align, f.flags).render()
+            if r is None:
+                return None, None
+            s += r
+        out.append(s.encode("ascii", "replace"))
+    return out, first
+
+
+def _render_binary(run, ev, order):
+    axes, parts = [], []
+    for it in run.header.items:
+        if it.run or const_int(it.count) is None:
+            break
+        if it.code in INT_CODES and const_int(it.count) == 1 and is_rat(it.value):
+            lo, hi = ev.rng(it.value)
+            if lo is None or hi is None:
+                if sym_name(it.value) == "form":
+                    lo, hi = 1, 9
+                else:
+                    break
+            axes.append(FM.int_reps(int(lo), int(hi), 256))
+            parts.append((it.code, len(axes) - 1))
+        elif it.code == "s":
+            parts.append(b"NAME".ljust(const_int(it.count))[:const_int(it.count)])
+        else:
+            break
+    if not axes:
+        return None
+    out = []
+    for combo in FM.star(axes):
+        b = b""
+        for x in parts:
+            if isinstance(x, bytes):
+                b += x
+                continue
+            try:
+                b += FM.struct.pack(order + x[0], combo[x[1]])
+            except FM.struct.error:
+                b = None          # out of the struct code's range: R4's business
+                break
+        if b is not None:
+            out.append(b)
+    return out
+
+
+def r10_format_detection(ctx):
+    """Reader / writer agreement on the format autodetection.  The reader decides from the first bytes of the file whether it is ASCII or binary
+    (and, for binary, the byte order and the integer size).  Every header the ASCII writers can produce - the first line as the evaluated writer
+    emits it, in every regime of the row count, hence with the 8-wide and the 16-wide integer layout - must be answered "ascii"; every first
+    record of a binary writer (record length 24, either byte order) "binary" with that byte order and 32-bit integers.  The function that stores
+    `self._ascii` is interpreted on concrete representatives (one per digit count / byte count of each header field): a wrong answer comes with
+    the header that is misjudged."""
+    L = lab(ctx)
+    meth = _op4_methods(ctx)
+    roots, deciders = _format_root(meth)
+    where = meth.get(deciders[0]) if deciders else None
+    if len(roots) != 1 or not deciders:
+        ctx.error("format autodetection: one method opens the file and reaches the function that stores self._ascii", where, {"open": roots, "stores": deciders})
+        return
+    root = meth[roots[0]]
+    cache = {}
+
+    def decide(data):
+        if data not in cache:
+            m = FM.Mini(meth, data)
+            try:
+                m.run_until_decided(root, "_ascii", ("_endian", "_bit64"))
+                cache[data] = ("ok", dict(m.attrs, __late__=m.late)) if "_ascii" in m.attrs else ("stop", "self._ascii is not set on this path")
+            except FM.Raised as e:
+                cache[data] = ("raise", str(e))
+            except FM.Stop as e:
+                cache[data] = ("stop", str(e))
+        return cache[data]
+
+    def settle(inst, worlds, datas, good, what, key, needs=()):
+        """one obligation over the representatives `datas`: good(attrs) for all of them"""
+        ctx.scope(*worlds)
+        if not datas:
+            ctx.error(inst, where, "no header could be rendered from the writer's records")
+            return
+        stop = None
+        for d in datas:
+            st, r = decide(d)
+            if st == "stop":
+                stop = stop or (d, r)
+                continue
+            if st == "ok" and needs and r.get("_ascii") is False and any(k not in r for k in needs):
+                # the answer is not stored under the name the rule knows (or the interpretation ended before it was): not bound, never a verdict
+                stop = stop or (d, r.get("__late__") or f"{' / '.join('self.' + k for k in needs)} not set once self._ascii is False")
+                continue
+            if st == "raise" or not good(r):
+                ctx.fail(inst, where, {"first bytes of the file": repr(d[:16]), "answer": r if st == "raise" else {k: r.get(k) for k in ("_ascii", "_endian", "_bit64")},
+                                       "expected": what}, key=key)
+                return
+        if stop is not None:
+            ctx.error(inst, where, {"first bytes of the file": repr(stop[0][:16]), "not interpreted": stop[1]})
+        else:
+            ctx.ok(inst, where)
+
+    for layout in LAYOUTS:
+        fn = wfn(ctx, "ascii", layout)
+        groups = {}
+        for run in L.writer("ascii", layout):
+            if run.raised or run.header is None:
+                continue
+            datas, w = _render_ascii(run, S.OP4Eval(None, run.W))
+            g = groups.setdefault(w, ([], []))
+            g[0].append(run.W)
+            g[1].extend(datas or [])
+        if not groups:
+            ctx.error(f"{fn.name}: matrix header line", fn)
+        for w, (worlds, datas) in sorted(groups.items(), key=lambda kv: kv[0] or 0):
+            settle(f"{roots[0]} <- {fn.name}: a file that starts with the header line the writer prints ({w}-character integer fields) is recognised as ASCII",
+                   worlds, datas, lambda a: a.get("_ascii") is True or (not isinstance(a.get("_ascii"), bool) and bool(a.get("_ascii"))), "_ascii = True",
+                   f"C04-R10|ascii|{layout}|{w}")
+    for layout in LAYOUTS:
+        fn = wfn(ctx, "binary", layout)
+        runs = [r for r in L.writer("binary", layout) if not r.raised and r.header is not None]
+        if not runs:
+            ctx.error(f"{fn.name}: first record", fn)
+            continue
+        for order in "<>":
+            datas = []
+            for run in runs:
+                datas.extend(_render_binary(run, S.OP4Eval(None, run.W), order) or [])
+            worlds = [r.W for r in runs]
+            oname = "little" if order == "<" else "big"
+            settle(f"{roots[0]} <- {fn.name}: a file that starts with the {oname}-endian first record of the writer is recognised as binary",
+                   worlds, datas, lambda a: a.get("_ascii") is False, "_ascii = False", f"C04-R10|binary|{layout}|{order}")
+            native = "<" if FM.sys.byteorder == "little" else ">"
+            settle(f"{roots[0]} <- {fn.name}: the byte order of a {oname}-endian first record is recognised",
+                   worlds, datas, lambda a: a.get("_ascii") is not False or a.get("_endian") == order or (a.get("_endian") == "=" and order == native),
+                   f"_endian = {order!r}", f"C04-R10|endian|{layout}|{order}", needs=("_endian",))
+            settle(f"{roots[0]} <- {fn.name}: the 4-byte integers of a {oname}-endian first record (record length 24) are recognised",
+                   worlds, datas, lambda a: a.get("_ascii") is not False or ("_bit64" in a and not a["_bit64"]),
+                   "_bit64 = False", f"C04-R10|bit64|{layout}|{order}", needs=("_bit64",))
+    # the reader's own contract for files it did not write: a first record of 48 bytes holds 8-byte integers (files of 64-bit Nastran versions).  Not
+    # something the writers produce - kept to the format decision only (one obligation per byte order)
+    for order in "<>":
+        oname = "little" if order == "<" else "big"
+        native = "<" if FM.sys.byteorder == "little" else ">"
+        datas = [FM.struct.pack(order + "i3q", 48, c, r, 6)[:32] for c, r in ((1, 1), (300, -70000), (99999998, 2 ** 31 - 1))]
+        settle(f"{roots[0]}: a file that starts with a {oname}-endian record length 48 (8-byte integers) is recognised as binary, {oname}-endian, 64-bit",
+               (), datas, lambda a: a.get("_ascii") is False and (a.get("_endian") == order or (a.get("_endian") == "=" and order == native)) and bool(a.get("_bit64")),
+               f"_ascii = False, _endian = {order!r}, _bit64 = True", f"C04-R10|rec48|{order}", needs=("_endian", "_bit64"))
+
+
+# --------------------------------------------------------------------------------------------------------------------- R11
+_BYTELESS = re.compile(r"^[|=<>]?(S\d*|a\d*|V\d*|U1|[uib]1|[bB?c]|uint8|int8|bool)$")
+
+
+class _Scope:
+    """names of one function: what each is assigned from, which carry the file's byte order, where parameters come from"""
+
+    def __init__(self, fn, taint, origins, outer):
+        self.fn, self.outer, self.origins = fn, outer, origins
+        self.defs = {}
+        self.nested = {}
+        self.parents = {}
+        for n in walk_no_nested(fn):
+            for c in ast.iter_child_nodes(n):
+                self.parents[c] = n
+            if isinstance(n, (ast.FunctionDef, ast.AsyncFunctionDef)):
+                self.nested[n.name] = n
+            tg, val = [], None
+            if isinstance(n, ast.Assign):
+                tg, val = n.targets, n.value
+            elif isinstance(n, (ast.AugAssign, ast.AnnAssign)) and n.value is not None:
+                tg, val = [n.target], n.value
+            elif isinstance(n, (ast.For, ast.comprehension)):
+                tg, val = [n.target], n.iter
+            elif isinstance(n, ast.NamedExpr):
+                tg, val = [n.target], n.value
+            for t in tg:
+                for x in ast.walk(t):
+                    if isinstance(x, ast.Name) and isinstance(x.ctx, ast.Store):
+                        self.defs.setdefault(x.id, []).append(val)
+                    elif isinstance(x, ast.Attribute) and isinstance(x.ctx, ast.Store) and isinstance(x.value, ast.Name):
+                        self.defs.setdefault(x.value.id, []).append(val)          # v.dtype = ...
+        for c in ast.iter_child_nodes(fn):
+            self.parents[c] = fn
+        self.taint = set(taint)
+
+    def reaches(self, expr, seen=None):
+        """does the value of `expr` depend (through assignments, parameters, closures) on the byte order / is its byte order changed on the way"""
+        seen = set() if seen is None else seen
+        stack = [expr]
+        while stack:
+            x = stack.pop()
+            if isinstance(x, ast.Call) and isinstance(x.func, ast.Attribute) and isinstance(x.func.value, ast.Name) and x.func.value.id in ("self", "OP4") \
+                    and x.func.attr in self.meth and not any(isinstance(a, ast.Starred) for a in x.args) and len(seen) < 400:
+                # the result of a method of the class: what it returns, given what it is handed (not "any argument")
+                key = ("call", id(x))
+                if key in seen:
+                    continue
+                seen.add(key)
+                callee = self.meth[x.func.attr]
+                sub = _Scope.bind(callee, x, self, True, seen)
+                if any(sub.reaches(r.value, seen) for r in walk_no_nested(callee) if isinstance(r, ast.Return) and r.value is not None):
+                    return True
+                continue
+            if isinstance(x, ast.Attribute) and x.attr in ("_endian", "byteswap", "newbyteorder"):
+                return True
+            # items without a byte order (byte strings, single bytes): nothing to get wrong
+            if (isinstance(x, ast.Attribute) and x.attr in ("uint8", "int8", "bytes_", "ubyte", "byte")) or (isinstance(x, ast.Name) and x.id == "bytes") \
+                    or (isinstance(x, ast.Constant) and isinstance(x.value, str) and _BYTELESS.match(x.value)):
+                return True
+            if isinstance(x, ast.Name):
+                if self.name_reaches(x.id, seen):
+                    return True
+            stack.extend(ast.iter_child_nodes(x))
+        return False
+
+    meth = {}
+    root = False
+    guarded_call = False          # the function is called under a test of the byte order
+    fnargs = None
+
+    def lookup_fn(self, name):
+        """a nested function visible under `name` (defined here, in an enclosing function, or handed over as an argument) -> (function, defining scope)"""
+        s = self
+        while s is not None:
+            if name in s.nested:
+                return s.nested[name], s
+            if s.fnargs and name in s.fnargs:
+                return s.fnargs[name]
+            s = s.outer
+        return None
+
+    def under_test(self, node):
+        """is `node` executed under a test that depends on the byte order (in this function, or the function itself is called under one)"""
+        if self.guarded_call:
+            return True
+        a = self.parents.get(node)
+        while a is not None and a is not self.fn:
+            if isinstance(a, (ast.If, ast.IfExp, ast.While)) and self.reaches(a.test):
+                return True
+            a = self.parents.get(a)
+        return False
+
+    @staticmethod
+    def bind(callee, call, sc, method, seen=None, defscope=None):
+        """the scope of `callee` for the call `call` made in scope `sc`"""
+        names = [a.arg for a in callee.args.args]
+        if method and names and names[0] in ("self", "cls"):
+            names = names[1:]
+        origins, taint, fnargs = {}, set(), {}
+        pairs = list(zip(names, call.args)) + [(k.arg, k.value) for k in call.keywords if k.arg in names]
+        for p, arg in pairs:
+            origins.setdefault(p, []).append((sc, arg))
+            if sc.reaches(arg, set(seen) if seen is not None else None):
+                taint.add(p)
+            if isinstance(arg, ast.Name) and sc.lookup_fn(arg.id) is not None:
+                fnargs[p] = sc.lookup_fn(arg.id)
+        new = _Scope(callee, taint, origins, None if method else defscope)
+        new.fnargs = fnargs
+        if seen is None:
+            new.guarded_call = sc.under_test(call)
+        return new
+
+    def name_reaches(self, name, seen):
+        key = (id(self), name)
+        if key in seen:
+            return False
+        seen.add(key)
+        if name in self.taint:
+            return True
+        params = {a.arg for a in self.fn.args.args + self.fn.args.kwonlyargs} | {a.arg for a in (self.fn.args.vararg, self.fn.args.kwarg) if a is not None}
+        if name in params and name not in self.origins and not self.root and name not in ("self", "cls"):
+            return True          # a parameter whose argument is not seen: nothing is known about it
+        local = name in self.defs or name in self.origins or name in params
+        for v in self.defs.get(name, ()):
+            if self.reaches(v, seen):
+                return True
+        for sc, arg in self.origins.get(name, ()):
+            if sc.reaches(arg, seen):
+                return True
+        if not local and self.outer is not None:
+            return self.outer.name_reaches(name, seen)
+        return False
+
+
+def r11_value_block_byte_order(ctx):
+    """The binary writers take the byte order of the file as an argument and pack every header with it; the reader decodes the value blocks with
+    the file's byte order.  A value block written as the *raw bytes of an array* (`f.write(x.tobytes())`, `x.tofile(f)`) is in the byte order of
+    that array's dtype, so the array must have been given the file's byte order (`astype(endian + 'f8')`, `np.asarray(x, dtype=endian + 'f8')`,
+    a byteswap under a test of the byte order ...).  Typestate rule: the write is a violation when nothing the array is computed from - its
+    assignments, the arguments it is handed over as, the tests it is written under - depends on the byte-order argument: such bytes are the same for
+    '<' and '>' and one of them is read back wrongly.  Anything that does depend on it is left to the evaluation of the writer (R3)."""
+    meth = _op4_methods(ctx)
+    _Scope.meth = meth
+    sites = []
+    done = set()
+
+    def scan(sc, depth):
+        fn = sc.fn
+        for n in walk_no_nested(fn):
+            if not isinstance(n, ast.Call):
+                continue
+            f = n.func
+            if isinstance(f, ast.Attribute) and f.attr in ("tobytes", "tofile"):
+                par = sc.parents.get(n)
+                written = f.attr == "tofile" or (isinstance(par, ast.Call) and isinstance(par.func, ast.Attribute) and par.func.attr == "write" and n in par.args)
+                if not written:
+                    continue
+                dep = sc.reaches(f.value) or sc.under_test(n)
+                sites.append((n, fn, dep))
+                continue
+            callee = None
+            if isinstance(f, ast.Name):
+                got = sc.lookup_fn(f.id)
+                if got is not None:
+                    callee, dscope = got
+                off = 0
+            elif isinstance(f, ast.Attribute) and isinstance(f.value, ast.Name) and f.value.id in ("self", "OP4") and f.attr in meth:
+                callee, off, dscope = meth[f.attr], 1, None
+            if callee is None or depth >= 4 or any(isinstance(x, ast.Starred) for x in n.args) or any(k.arg is None for k in n.keywords):
+                continue
+            key = (id(callee), id(n))
+            if key in done:
+                continue
+            done.add(key)
+            scan(_Scope.bind(callee, n, sc, bool(off), None, dscope), depth + 1)
+
+    bound = 0
+    for layout in LAYOUTS:
+        nm = WRITERS[("binary", layout)]
+        fn = meth.get(nm)
+        names = [a.arg for a in fn.args.args] if fn is not None else []
+        if len(names) < 5:
+            ctx.error(f"{nm}: (f, name, matrix, byte order, form) signature", fn)
+            continue
+        bound += 1
+        top = _Scope(fn, {names[4]}, {}, None)
+        top.root = True
+        scan(top, 0)
+    bad = 0
+    told = set()
+    for n, fn, dep in sites:
+        if not dep and id(n) not in told:
+            told.add(id(n))
+            bad += 1
+            ctx.fail("a value block written as the raw bytes of an array is in the byte order the writer was asked for", n,
+                     f"{fn.name}: `{ast.unparse(n)[:80]}` - nothing the array is computed from, handed over as or written under depends on the byte-order "
+                     f"argument: the block has the machine's byte order for '<' and for '>' alike, the reader decodes it with the file's",
+                     key=f"C04-R11|{fn.name}|{ast.unparse(n.func)[:40]}")
+    if bound:
+        ctx.ok(f"raw-bytes rule scanned the {bound} binary writers and the functions they call ({len(sites)} raw array writes)", meth.get(WRITERS[("binary", "dense")]),
+               nontrivial=False)
+        if not bad:
+            ctx.ok("no binary writer emits the raw bytes of an array whose byte order does not depend on the requested one", meth.get(WRITERS[("binary", "dense")]))
+
+
 class Scoped:
     """The context as a rule sees it: every obligation remembers the evaluation worlds it was derived from (`ctx.scope(writer world, loader
     world)` names them for what follows), so that a lowering gap in one world only touches what was concluded from that world."""
@@ -1475,6 +1901,8 @@ RULES = [
     ("C04-R7", guarded(r7_input_canonical), 14),
     ("C04-R8", guarded(r8_symmetry_test), 4),
     ("C04-R9", r9_no_byte_reinterpretation, 2),
+    ("C04-R10", guarded(r10_format_detection), 16),
+    ("C04-R11", r11_value_block_byte_order, 2),
 ]
 LEVEL = "other"
 EXPLANATION = ("Static reader/writer agreement for OUTPUT4, decided on values: every writer is evaluated on symbols for a generic matrix (generic column and "
